@@ -27,7 +27,9 @@ var c07Parts = []string{"a", "A", "b", "0", "01", "a/b", "a~b", "a.b", "a b", " 
 	// separators / escape characters at the END and START of a key and alone (single-pass decoders slip at the boundaries)
 	"k/", "k~", "/k", "~k", "/", "~", "~~", "~/",
 	// all-digit keys beyond the int64 / uint64 range (a numeric part is a map key too, not only a list index)
-	"9223372036854775808", "18446744073709551616"}
+	"9223372036854775808", "18446744073709551616",
+	// an escape next to characters outside ASCII (byte-wise decoders), a character outside the BMP
+	"\u00e9/b", "\u00e9~", "\U0001d518/"}
 
 func identOK(s string) bool {
 	if s == "" {
